@@ -200,6 +200,8 @@ def check_all(trace, props=("C07", "C08", "C09", "C11", "C12", "C13", "C17")):
                                          % (meta["handlers"][leg["pick"]]["class"], iu["id"], m)})
         old_units = dict(st.units)
         st.apply(leg["delta"])
+        if kind == "start_of_run":
+            started = True
         # ---------------- C07 (b): continuity of every changed unit; inactive units do not move
         if "C07" in props:
             for u in leg["delta"] or []:
